@@ -123,10 +123,46 @@ def run(p: Program, rep: Report, tier: str) -> None:
             rep.violation("R19.2", construct(fn, text=f"terminator {show(ch)[-60:]}"), where(fn), "the block does not end with the two empty elements that produce the terminating blank line")
         if ch[0] == "call" and ch[2] and ch[2][0][0] == "call" and ch[2][0][1] == ("builtin", "map"):
             margs = ch[2][0][2]
-            if len(margs) == 3 and show(margs[1]) == "event.keys()" and show(margs[2]) == "event.values()":
-                rep.ok("R19.2", "field lines come from map(f, event.keys(), event.values()) after data was popped")
+            if len(margs) == 3 and show(margs[1]).endswith(".keys()") and show(margs[2]).endswith(".values()") and show(margs[1])[:-7] == show(margs[2])[:-9]:
+                rep.ok("R19.2", "field lines come from map(f, <fields>.keys(), <fields>.values())")
             else:
                 rep.violation("R19.2", construct(fn, text=f"fields {show(ch[2][0])[:80]}"), where(fn), "field lines are not built from the event's remaining keys/values")
+        elif ch[0] == "call" and ch[2] and ch[2][0][0] == "comp":
+            # (f"{k}: {v}".encode(charset) for k, v in <pairs of the event other than data>)
+            cmpv = ch[2][0]
+            el = cmpv[2]
+            shape = el[0] == "call" and el[1][0] == "attr" and el[1][2] == "encode" and el[2] == (("param", "charset"),) and el[1][1][0] == "fstr" and len(el[1][1][1]) == 3 \
+                and el[1][1][1][1] == ("const", ": ")
+            if shape:
+                rep.ok("R19.2", "each field line is f'{k}: {v}'.encode(charset) for the event's pairs other than data")
+            else:
+                rep.violation("R19.2", construct(fn, text=f"field line {show(el)[:80]}"), where(fn), "a field line is not '<name>: <value>' encoded with the response charset")
+    # every non-data pair of the event becomes a field line and `data` does not: either the pairs are filtered with
+    # `!= "data"`, or data was removed from a private copy
+    src_fn = ast.unparse(fn.node)
+    ev = fn.params[0]
+    filters = [n for n in ast.walk(fn.node) if isinstance(n, ast.Compare) and len(n.ops) == 1 and isinstance(n.ops[0], (ast.NotEq, ast.Eq)) and any(isinstance(x, ast.Constant) and x.value == "data" for x in [n.left] + n.comparators)]
+    copies = [n for n in ast.walk(fn.node) if isinstance(n, ast.Assign) and isinstance(n.value, (ast.Call, ast.Dict)) and (
+        (isinstance(n.value, ast.Call) and isinstance(n.value.func, ast.Name) and n.value.func.id == "dict" and n.value.args and isinstance(n.value.args[0], ast.Name) and n.value.args[0].id == ev)
+        or (isinstance(n.value, ast.Dict) and any(k is None and isinstance(v_, ast.Name) and v_.id == ev for k, v_ in zip(n.value.keys, n.value.values))))]
+    copy_names = {t.id for n in copies for t in n.targets if isinstance(t, ast.Name)}
+    muts = []
+    for n in ast.walk(fn.node):
+        if isinstance(n, ast.Call) and isinstance(n.func, ast.Attribute) and n.func.attr in ("pop", "popitem", "clear", "update", "setdefault", "__delitem__", "__setitem__") and isinstance(n.func.value, ast.Name) and n.func.value.id == ev:
+            muts.append(n)
+        elif isinstance(n, ast.Delete) and any(isinstance(t, ast.Subscript) and isinstance(t.value, ast.Name) and t.value.id == ev for t in n.targets):
+            muts.append(n)
+        elif isinstance(n, (ast.Assign, ast.AugAssign)) and any(isinstance(t, ast.Subscript) and isinstance(t.value, ast.Name) and t.value.id == ev for t in (n.targets if isinstance(n, ast.Assign) else [n.target])):
+            muts.append(n)
+    rebinds_param = ev in copy_names  # `event = dict(event)`: later mutations hit the private copy
+    if muts and not rebinds_param:
+        rep.violation("R19.2", construct(fn, text="mutates the event argument: " + " ".join(ast.unparse(muts[0]).split())[:50]), where(fn, muts[0]),
+                      f"build_bytes_from_sse changes the event dict it is given ({' '.join(ast.unparse(muts[0]).split())[:50]}): an application that yields the same dict object again (a reused heartbeat / template event) "
+                      "gets its second event encoded without the removed field - the bytes no longer correspond to the event that was yielded")
+    elif filters or copies:
+        rep.ok("R19.2", "the caller's event dict is not modified; `data` is kept out of the field lines by a filter / a private copy")
+    else:
+        rep.violation("R19.2", construct(fn, text="data also emitted as a field line"), where(fn), "the data field is neither filtered out of the field lines nor removed from a private copy: it is sent twice (as 'data: ...' lines and as a raw field line)")
     # the field-line lambda
     lams = [n for n in ast.walk(fn.node) if isinstance(n, ast.Lambda)]
     if lams:
